@@ -546,8 +546,13 @@ package parse
 // number literal looks for its fraction point (tokens that can merge)
 //@   at? "t.next()" nows: !isWS(tokAt(t, tcur(t)))
 //@   at? "t.peek()" nows: !isWS(tokAt(t, tcur(t))) || incase("tokenNumber")
+// C14/C03: the text of a string literal is the text between the quotes as written - the same for both quote
+// characters (no escape processing, no trimming)
+//@   at "NewStringExpr(" verbatim: arg0 == nxt.value
 // C04: the operand of a unary operator extends over the operators that bind tighter than it
 //@   at "t.parseExprPrec(op.precedence)" operand: op == unaryOperators[tok.value]
+// ... and there is no other way to a unary node: every successful return of the operator arm has parsed that operand
+//@   asserts@tokenOperator operand: err == nil ==> called("t.parseExprPrec(op.precedence)") && istype(r0, "*UnaryExpr")
 // C20: a literal, a name, a unary operator, a group, a hash or an array carries the position of its first token
 //@   asserts@tokenNumber anchor: err == nil ==> istype(r0, "*NumberExpr") && unbox(r0, "*NumberExpr").Pos == tok.Pos
 //@   asserts@tokenOperator anchor: err == nil ==> istype(r0, "*UnaryExpr") && unbox(r0, "*UnaryExpr").Pos == tok.Pos
@@ -800,6 +805,11 @@ package parse
 // C20: a block overridden inside an embed carries the position of its own block tag
 //@   at "parseBlock(t, tok.Pos)" anchor: tok.tokenType == tokenName
 //@   ensures anchor: err == nil ==> nposIs(r0, start)
+// C10: the blocks written in an embed body are collected in a table of their own (pushed for the embed, popped into
+// the embed node): they never land in the block table of the template that contains the embed
+//@   at "parseBlock(t, tok.Pos)" own: len(t.blocks) == old(len(t.blocks)) + 1 && called("t.pushBlockStack()")
+//@   at "NewEmbedNode(expr, with, only, blockRefs, start)" own: called("t.popBlockStack()") && len(t.blocks) == old(len(t.blocks))
+//@   after "t.popBlockStack()" own: true
 //@   reveal blocksOK
 //@   requires tinv(t)
 //@   ensures wf: tinv(t) && tcur(t) >= old(tcur(t))
@@ -935,6 +945,8 @@ package parse
 //@   at "t.expect(tokenName)" mark: mark == tcur(t) - 1 && tokAt(t, mark).tokenType == tokenTagOpen
 //@   at "body.WriteString(rt.value)" each: mark <= rangeindex + 1 + mark && rt == t.read[mark + rangeindex + 1]
 //@   asserts text: err == nil ==> istype(r0, "*TextNode") && unbox(r0, "*TextNode").Data == bufstr(addrof(body))
+// C03: ... and only a tag named endverbatim ends the literal section (tok: the name read after the last TAG_OPEN)
+//@   asserts endtag: err == nil ==> tok.tokenType == tokenName && tok.value == "endverbatim"
 //@   loop 2 invariant tinv(t) && tcur(t) > old(tcur(t)) && rangeindex >= -1
 // C20 (rejection): a tag that parses without error has been closed: the last token consumed is its (end tag's) TAG_CLOSE
 //@   ensures closed: err == nil ==> tokAt(t, tcur(t) - 1).tokenType == tokenTagClose
@@ -950,7 +962,7 @@ package parse
 // Entry points. streamOK(t.lex) is assumption A4 (the lexer side proves its half: terminal token last,
 // channel closed, G1); the structural part of tinv is established by NewNamedTree.
 //@ func parse.NewNamedTree
-//@   ensures fresh: result != nil && result.root != nil && result.lex != nil && result.macros != nil
+//@   ensures fresh: result != nil && result.root != nil && result.lex != nil && result.macros != nil && fresh(result)
 //@   ensures stacks: len(result.read) == 0 && len(result.unread) == 0 && ref(result.read) != ref(result.unread)
 //@   ensures blocks: len(result.blocks) == 1 && result.blocks[0] != nil
 //@ func parse.NewTree
@@ -990,6 +1002,8 @@ package parse
 //@   ensures same: result == err
 //@   ensures named: errNamed(result, t.Name)
 //@ func parse.newLexer
+// C03: the lexer works on exactly the bytes read from the source (nothing is normalised, trimmed or re-encoded)
+//@   asserts input: len(result.input) == len(i) && (forall k :: 0 <= k && k < len(i) ==> result.input[k] == i[k])
 //@   ensures init: result != nil && result.start == 0 && result.pos == 0 && result.line == 1 && result.offset == 0 && result.mode == modeNormal && result.parens == 0
 
 // ---------------------------------------------------------------------------------------
